@@ -716,6 +716,15 @@ func addReflectStubs(m map[string]stubFn) {
 			rpanic(fr, "reflect: call of reflect.Value.FieldByName on "+kindNames[kindOf(r.t)]+" Value")
 		}
 		name := mustStr(fr, args[1], "FieldByName")
+		if isReflectValueType(r.t) {
+			// reflection on a reflect.Value itself (unexports2.CreateFuncForCodePtr reads the
+			// "ptr" word to get at the function value behind a MakeFunc result)
+			inner, ok := in.rvGet(fr, r).(*RValue)
+			if ok && name == "ptr" {
+				return &RValue{t: types.Typ[types.UnsafePointer], v: in.rvDataPtr(fr, inner), flag: rvRO}
+			}
+			panic(pathAbort{"unsupported: reflect.ValueOf(reflect.Value).FieldByName(" + name + ") at " + fr.site()})
+		}
 		for i := 0; i < st.NumFields(); i++ {
 			if st.Field(i).Name() == name {
 				return in.rvFieldOf(fr, r, st, i)
